@@ -13,7 +13,7 @@ import (
 func init() {
 	exec := map[string]func(in In, em *Emitter){
 		"masks": execMasks, "rank": execRank, "rankl": execRankL, "select": execSelect, "selectl": execSelectL, "scan": execScan,
-		"of": execOf, "ofmany": execOfMany, "toarray": execToArray, "join": execJoin, "joinbig": execJoinBig, "slice": execSlice, "slicebig": execSliceBig,
+		"of": execOf, "ofmany": execOfMany, "toarray": execToArray, "join": execJoin, "joinbig": execJoinBig, "slice": execSlice, "slicebig": execSliceBig, "perbig": execPerBig, "ofbig": execOfBig, "scanbig": execScanBig,
 		"bld": execBuilder,
 	}
 	trivBM := func(k string, in In) bool {
@@ -248,6 +248,130 @@ func execSelectL(in In, em *Emitter) {
 	em.Calls(2*len(is) + 2)
 }
 
+// execPerBig: rank, select and scans on a periodic bitmap of up to 2^31 - 64 bits (Trace_Bitmap!PerBigOK): word i is
+// all ones, the even bits, or bits 0 and 63 for i%3 = 0, 1, 2. Index slices are reported at sampled entries.
+func execPerBig(in In, em *Emitter) {
+	nw := in.Int("nw")
+	pos, is := in.I32s("pos"), in.I32s("is")
+	wk, sj := in.Is("wk"), in.Is("sj")
+	rs := toList(in.get("ranges"))
+	o := J{}
+	abn := guard(func() {
+		pat := [3]uint64{^uint64(0), 0x5555555555555555, 1<<63 | 1}
+		ws := make([]uint64, nw)
+		for i := range ws {
+			ws[i] = pat[i%3]
+		}
+		at := func(idx []int32, ks []int64, f func(k int64) int64) []int64 {
+			r := make([]int64, len(ks))
+			for j, k := range ks {
+				r[j] = -7
+				if e := f(k); e >= 0 && e < int64(len(idx)) {
+					r[j] = num(int64(idx[e]))
+				}
+			}
+			return r
+		}
+		same := func(k int64) int64 { return k }
+		if len(pos) > 0 {
+			idx64, idx64t, idx128 := bitmap.IndexRank64(ws), bitmap.IndexRank64(ws, true), bitmap.IndexRank128(ws)
+			o["n64"], o["n64t"], o["n128"] = len(idx64), len(idx64t), len(idx128)
+			o["idx64"], o["idx64t"] = at(idx64, wk, same), at(idx64t, wk, same)
+			o["idx128"] = at(idx128, wk, func(k int64) int64 { return k / 2 })
+			o["idx64tlast"] = num(int64(idx64t[len(idx64t)-1]))
+			o["r64"] = pairsAt(pos, func(i int32) (int32, int32) { return bitmap.Rank64(ws, idx64, i) })
+			o["r64t"] = pairsAt(pos, func(i int32) (int32, int32) { return bitmap.Rank64(ws, idx64t, i) })
+			o["r128"] = pairsAt(pos, func(i int32) (int32, int32) { return bitmap.Rank128(ws, idx128, i) })
+		}
+		if len(is) > 0 {
+			sidx := bitmap.IndexSelect32(ws)
+			sidx2, ridx := bitmap.IndexSelect32R64(ws)
+			o["nsidx"], o["nsidx2"], o["nridx"] = len(sidx), len(sidx2), len(ridx)
+			o["sidx"], o["sidx2"] = at(sidx, sj, same), at(sidx2, sj, same)
+			o["sel"] = pairsAt(is, func(i int32) (int32, int32) { return bitmap.Select32(ws, sidx, i) })
+			o["selr"] = pairsAt(is, func(i int32) (int32, int32) { return bitmap.Select32R64(ws, sidx2, ridx, i) })
+		}
+		next := make([]int64, len(rs))
+		prev := make([]int64, len(rs))
+		for j, x := range rs {
+			ie := toIs(x)
+			next[j] = num(int64(bitmap.NextOne(ws, int32(ie[0]), int32(ie[1]))))
+			prev[j] = -7
+			if ie[1] >= 1 {
+				prev[j] = num(int64(bitmap.PrevOne(ws, int32(ie[0]), int32(ie[1]))))
+			}
+		}
+		o["next"], o["prev"] = next, prev
+	})
+	if abn != "" {
+		o = J{}
+	}
+	em.Emit("perbig", J{"in": in.m, "out": o, "abn": abn})
+	em.Calls(3*len(pos) + 2*len(is) + 2*len(rs) + 5)
+}
+
+// genPerBig: thorough tier only. part = "rank" | "select" | "scan".
+func genPerBig(g *Gen, part string) {
+	if g.Quick() {
+		return
+	}
+	r := g.R
+	for _, nw := range []int64{1<<25 - 1, 1<<25 - 2, 1<<24 + 1, 1 << 22} {
+		N := nw * 64
+		n := N / 192 * 98 // about the number of 1-bits
+		near := func(c int64, lim int64) []int64 {
+			var l []int64
+			for d := int64(-3); d <= 3; d++ {
+				if p := c + d; p >= 0 && p < lim {
+					l = append(l, p)
+				}
+			}
+			return l
+		}
+		in := J{"nw": nw, "pos": []int64{}, "is": []int64{}, "wk": []int64{}, "sj": []int64{}, "ranges": [][]int64{}}
+		var pos, is, wk, sj []int64
+		var ranges [][]int64
+		for _, c := range []int64{0, N - 1, 1 << 16, 1 << 24, 1 << 30, 1<<30 + 1<<29, 3 << 29, N / 2, 192 * 1000, N - 192} {
+			pos = append(pos, near(c, N)...)
+			wk = append(wk, near(c/64, nw)...)
+			for _, e := range near(c, N) {
+				ranges = append(ranges, []int64{e, N}, []int64{e, min64(e+70, N)}, []int64{0, e + 1}, []int64{max64(e-200, 0), e + 1})
+			}
+		}
+		for _, c := range []int64{0, n - 4, 1 << 16, 1 << 24, 1 << 29, 1 << 30, n / 2, 98 * 1000} {
+			is = append(is, near(c, n-3)...)
+			sj = append(sj, near(c/32, (n-3)/32)...)
+		}
+		for k := 0; k < 30; k++ {
+			pos = append(pos, r.Int63n(N))
+			is = append(is, r.Int63n(n-3))
+			wk = append(wk, r.Int63n(nw))
+			sj = append(sj, r.Int63n((n-3)/32))
+			a, b := r.Int63n(N), r.Int63n(N+1)
+			if a > b {
+				a, b = b, a
+			}
+			ranges = append(ranges, []int64{a, b})
+		}
+		switch part {
+		case "rank":
+			in["pos"], in["wk"] = pos, wk
+		case "select":
+			in["is"], in["sj"] = is, sj
+		default:
+			in["ranges"] = ranges
+		}
+		g.Case("perbig", in)
+	}
+}
+
+func max64(a, b int64) int64 {
+	if a > b {
+		return a
+	}
+	return b
+}
+
 // genLong emits long bitmaps (beyond 2^16 bits: 16-bit block counters, 65536-bit superblocks) as lists of
 // their 1-bits or 0-bits, with sampled positions / ranks around the list entries and the block boundaries.
 func genLong(g *Gen, kind string, n int) {
@@ -385,6 +509,7 @@ func genLong(g *Gen, kind string, n int) {
 
 func genC01(g *Gen) {
 	g.Case("masks", J{})
+	genPerBig(g, "rank")
 	genLong(g, "rankl", g.N(12, 120))
 	genBitmaps(g, g.N(1200, 40000), 10, 3, func(ws []uint64) {
 		g.Case("rank", J{"bm": bmJ(ws)})
@@ -423,6 +548,7 @@ func execSelect(in In, em *Emitter) {
 func genC02(g *Gen) {
 	r := g.R
 	emit := func(ws []uint64) { g.Case("select", J{"bm": bmJ(ws)}) }
+	genPerBig(g, "select")
 	genLong(g, "selectl", g.N(12, 120))
 	genBitmaps(g, g.N(1000, 40000), 8, 2, emit)
 	// every single-byte word b << 8j: the whole 256x8 in-byte lookup table through the API
@@ -507,8 +633,82 @@ func execScan(in In, em *Emitter) {
 	em.Calls(2 * len(rs))
 }
 
+func execScanBig(in In, em *Emitter) {
+	rs := toList(in.get("ranges"))
+	next := make([]int64, len(rs))
+	prev := make([]int64, len(rs))
+	abn := guard(func() {
+		ws := in.BM("bm")
+		for j, x := range rs {
+			ie := toIs(x)
+			i, end := int32(ie[0]), int32(ie[1])
+			next[j] = num(int64(bitmap.NextOne(ws, i, end)))
+			prev[j] = -7
+			if end >= 1 {
+				prev[j] = num(int64(bitmap.PrevOne(ws, i, end)))
+			}
+		}
+	})
+	o := J{"next": next, "prev": prev}
+	if abn != "" {
+		o = J{}
+	}
+	em.Emit("scanbig", J{"in": in.m, "out": o, "abn": abn})
+	em.Calls(2 * len(rs))
+}
+
 func genC13(g *Gen) {
 	r := g.R
+	genPerBig(g, "scan")
+	if !g.Quick() { // sparse bitmaps of 2^31 bits and a little less: scans in and into the last words, empty tails
+		const maxI32 = int64(1)<<31 - 1
+		for c := 0; c < 8; c++ {
+			nw := []int64{1 << 25, 1 << 25, 1<<25 - 1, 1 << 25, 1<<25 - 1, 1 << 24, 1 << 25, 1 << 25}[c]
+			N := nw * 64
+			top := N - 1
+			if top > maxI32 {
+				top = maxI32
+			}
+			ones := map[int64]bool{5: true, 1 << 30: true}
+			switch c % 4 {
+			case 0: // the last word is empty
+				ones[N-64-1], ones[N-130] = true, true
+			case 1: // one bit in the last word
+				ones[N-64+int64(r.Intn(60))] = true
+			case 2: // the very last bits
+				ones[top], ones[top-1] = true, true
+			default: // nothing in the last 1000 words
+				ones[N-64*1000-3] = true
+			}
+			var ol []int64
+			for p := range ones {
+				if p >= 0 && p <= top {
+					ol = append(ol, p)
+				}
+			}
+			sortI64(ol)
+			var pts []int64
+			for _, p := range append(ol, 0, top, top-1, top-62, top-63, top-64, top-65, top-127, top-128, N-64*1000, N-64*1001+1) {
+				for d := int64(-1); d <= 1; d++ {
+					if q := p + d; q >= 0 && q <= top {
+						pts = append(pts, q)
+					}
+				}
+			}
+			var ranges [][]int64
+			for _, i := range pts {
+				for _, e := range pts {
+					if i <= e && (i >= top-70000 || e <= i+200 || r.Intn(40) == 0) && len(ranges) < 700 {
+						ranges = append(ranges, []int64{i, e})
+					}
+				}
+				if N <= maxI32 {
+					ranges = append(ranges, []int64{i, N})
+				}
+			}
+			g.Case("scanbig", J{"bm": J{"nw": nw, "ones": ol}, "ranges": ranges})
+		}
+	}
 	emit := func(ws []uint64) {
 		n := int64(len(ws) * 64)
 		if n == 0 {
@@ -644,6 +844,45 @@ func genC13(g *Gen) {
 
 // ---------------------------------------------------------------- C12 (pure part)
 
+// execOfBig: Of with positions up to 2^31 - 1 (a 256 MiB bitmap, sparse), ToArray back, Get / SafeGet around the
+// listed positions and the end (Trace_Bitmap!OfBigOK).
+func execOfBig(in In, em *Emitter) {
+	pos := in.I32s("pos")
+	hasn := in.Bool("hasn")
+	n := in.I32("n")
+	probes := in.I32s("probes")
+	o := J{}
+	abn := guard(func() {
+		var ws []uint64
+		if hasn {
+			ws = bitmap.Of(pos, n)
+		} else {
+			ws = bitmap.Of(pos)
+		}
+		o["nw"] = len(ws)
+		o["ones"] = onesOfSparse(ws)
+		o["arr"] = nums32(bitmap.ToArray(ws))
+		var get, get1, sget, sget1 [][]int64
+		for _, i := range probes {
+			sget = append(sget, wordOnes(bitmap.SafeGet(ws, i)))
+			sget1 = append(sget1, wordOnes(bitmap.SafeGet1(ws, i)))
+			if i >= 0 && int64(i) < int64(len(ws))*64 {
+				get = append(get, wordOnes(bitmap.Get(ws, i)))
+				get1 = append(get1, wordOnes(bitmap.Get1(ws, i)))
+			} else {
+				get = append(get, []int64{})
+				get1 = append(get1, []int64{})
+			}
+		}
+		o["get"], o["get1"], o["sget"], o["sget1"] = get, get1, sget, sget1
+	})
+	if abn != "" {
+		o = J{}
+	}
+	em.Emit("ofbig", J{"in": in.m, "out": o, "abn": abn})
+	em.Calls(2 + 4*len(probes))
+}
+
 func execOf(in In, em *Emitter) {
 	pos := in.I32s("pos")
 	hasn := in.Bool("hasn")
@@ -769,6 +1008,38 @@ func ascPositions(r *rand.Rand) []int64 {
 
 func genC12(g *Gen) {
 	r := g.R
+	if !g.Quick() { // positions up to the largest int32 (thorough tier: 256 MiB bitmaps)
+		const maxI32 = int64(1)<<31 - 1
+		for c := 0; c < 10; c++ {
+			last := []int64{maxI32, maxI32 - 1, maxI32 - 63, maxI32 - 64, 1 << 30, 1<<30 - 1, maxI32 - 65, 1<<31 - 128, maxI32, 1<<30 + 64}[c]
+			pos := []int64{0, 63, 64, 1 << 16, 1<<30 - 1, 1 << 30}
+			for k := 0; k < 6; k++ {
+				pos = append(pos, r.Int63n(last))
+			}
+			var asc []int64
+			seen := map[int64]bool{}
+			for _, p := range append(pos, last-64, last-1, last) {
+				if p >= 0 && p <= last && !seen[p] {
+					seen[p] = true
+					asc = append(asc, p)
+				}
+			}
+			sortI64(asc)
+			hasn := c%3 == 1
+			n := []int64{last + 1, last - 100, maxI32, 5}[c%4]
+			if n > maxI32 {
+				n = maxI32
+			}
+			probes := []int64{0, -1, last, last - 1, last + 1, last - 64, maxI32, maxI32 - 1, -(1 << 31), 1 << 30, 1<<30 - 1}
+			var pr []int64
+			for _, p := range probes {
+				if p >= -(1<<31) && p <= maxI32 {
+					pr = append(pr, p)
+				}
+			}
+			g.Case("ofbig", J{"pos": asc, "hasn": hasn, "n": n, "probes": pr})
+		}
+	}
 	for i := 0; i < g.N(2500, 100000); i++ {
 		pos := ascPositions(r)
 		last1 := int64(0)
@@ -1031,6 +1302,9 @@ func genC14(g *Gen) {
 				}
 				sort.Slice(ol, func(i, j int) bool { return ol[i] < ol[j] })
 				g.Case("slicebig", J{"bm": J{"nw": nw, "ones": ol}, "from": from, "to": to})
+				if c < 2 { // (almost) the whole bitmap: to - from + 63 exceeds int32 too
+					g.Case("slicebig", J{"bm": J{"nw": nw, "ones": ol}, "from": []int64{0, 1, 63, 64}[r.Intn(4)], "to": to})
+				}
 			}
 		}
 	}
